@@ -1,5 +1,7 @@
 import RepeVerif.Lemmas.WriterDiscipline
 import RepeVerif.Gen.Wire
+import RepeVerif.Gen.Torn
+import RepeVerif.Props.C02
 /-!
 # C05 — Bytes put on a connection are always whole frames, never torn or interleaved
 
@@ -15,17 +17,22 @@ any point.  An endpoint is described by two facts, `exclusive` (writer lock held
 byte of a frame) and `failOnInterrupt` (an interrupted frame fails the connection).
 
 clause → theorem
-* concatenation of complete frames; no interleaving ........ `whole_frames` (shape, for every schedule)
+* concatenation of complete frames; no interleaving ........ `whole_frames` (shape, for every schedule),
+                                                              `whole_frames_endpoints` + `endpoints_disciplined` (the six endpoints, current source)
 * an interrupted write is never followed by further frames .. `whole_frames` (last clause), `failed_is_final`,
                                                               `whole_frames_quiescent`
 * the connection is failed instead .......................... `interrupted_frame_fails_connection`
-* a peer re-synchronises purely from declared lengths ....... `frames_self_delimiting`, `peer_resync`
+* a peer re-synchronises purely from declared lengths ....... `frames_self_delimiting`, `peer_resync`,
+                                                              `peer_resync_current` (corollary of `C02.parse_complete` / `C02.parse_sound`
+                                                              on the extracted sum forms and the extracted endpoint facts)
 * each fact is necessary .................................... `torn_without_fail`, `interleaved_without_lock`
 * the driver of the correspondence runs this model .......... `driver_run_is_model_run`, `driver_frames_consistent`
 
-What is *not* a theorem: that each of the six endpoints has the two facts.  They are not extractable
-from six differently written endpoints; that tie is behavioural (correspondence family `torn`: stalled
-scripted peers, write timeouts, cancelled calls, independent stream parser).  Kernel socket semantics,
+The two facts of each endpoint are read off its write path by `extract/torn.py` on every run
+(`Gen.Torn`, `endpoints_disciplined`, `whole_frames_endpoints`): lock regions, writes outside them,
+dropped write results, what a failed/timed-out write does, the abandoned-frame marker.  What the syntactic
+forms *mean* at run time is tied behaviourally (correspondence family `torn`: stalled scripted peers,
+write timeouts, cancelled calls, independent stream parser).  Kernel socket semantics,
 `BufWriter`, tokio cancellation points and tungstenite's framing are exercised there, not modelled.
 -/
 namespace Repe.C05
@@ -100,6 +107,49 @@ theorem whole_frames (f : Facts) (hx : f.exclusive = true) (hf : f.failOnInterru
       exact ⟨m.toVec.take off, hs, Or.inr ⟨m, off, hm, hlt, rfl⟩,
         fun _ => Or.inl ⟨rfl, w, m, off, rfl, hc, rfl⟩⟩
 
+/-! ### the six endpoints, as the current source writes them -/
+
+/-- Every endpoint's write path, as re-extracted from `/repo` on this run, has both discipline facts:
+one writer (or one lock region spanning every frame write and no write outside it), whole writes, no
+dropped write result, every failed or timed-out write ends the connection, and a dropped writing
+future cannot be followed by another frame.  (Blocking client, async client, WebSocket client,
+blocking server, async server, WebSocket server, WebSocket proxy relay = endpoints 0..6 of the `torn` family.) -/
+theorem endpoints_disciplined :
+    ∀ ep, ep < 7 → (Gen.Torn.obs ep).map Obs.facts = some ⟨true, true⟩ := by decide
+
+/-- `whole_frames` for each of the six endpoints with the facts the current source gives it. -/
+theorem whole_frames_endpoints (ep : Nat) (hep : ep < 7) :
+    ∃ o, Gen.Torn.obs ep = some o ∧
+    ∀ (evs : List (Ev Message)), (∀ e ∈ evs, e.Wf) →
+      let c := run mlen o.facts evs Conn.init
+      (∀ m ∈ c.done, m.WF) ∧
+      ∃ tail : Bytes,
+        c.stream = (c.done.map Message.toVec).flatten ++ tail ∧
+        (tail = [] ∨ ∃ (m : Message) (off : Nat), m.WF ∧ off < m.toVec.length ∧ tail = m.toVec.take off) ∧
+        (tail ≠ [] →
+          (c.failed = false ∧ ∃ w m off, c.lock = some w ∧ c.cur w = some (m, off) ∧ tail = m.toVec.take off) ∨
+          (c.failed = true ∧ ∀ later : List (Ev Message),
+              (run mlen o.facts later c).stream = c.stream ∧ (run mlen o.facts later c).done = c.done)) := by
+  have h := endpoints_disciplined ep hep
+  cases ho : Gen.Torn.obs ep with
+  | none => rw [ho] at h; cases h
+  | some o =>
+    rw [ho] at h
+    simp only [Option.map_some, Option.some.injEq] at h
+    refine ⟨o, rfl, fun evs hwf => ?_⟩
+    have hx : o.facts.exclusive = true := by rw [h]
+    have hf : o.facts.failOnInterrupt = true := by rw [h]
+    exact whole_frames o.facts hx hf evs hwf
+
+/-- A dangerous form is enough to lose a fact (non-vacuity of the extraction: these are the
+observations of F5 — two dropped timeout results —, F6 — no shutdown —, F7 — no marker —, and of a
+write outside the lock region). -/
+example : (Obs.facts ⟨true, 0, 0, true, 2, false, true⟩).failOnInterrupt = false ∧
+    (Obs.facts ⟨false, 1, 0, true, 0, false, true⟩).failOnInterrupt = false ∧
+    (Obs.facts ⟨false, 1, 0, true, 0, false, false⟩).failOnInterrupt = false ∧
+    (Obs.facts ⟨false, 1, 2, true, 0, true, true⟩).exclusive = false ∧
+    (Obs.facts ⟨false, 2, 0, true, 0, true, true⟩).exclusive = false := by decide
+
 /-- Quiescent reading (what a peer that drained the connection sees): when no frame is in progress
 (every started frame was completed or interrupted), a non-empty torn tail means the connection is
 failed, and the stream never changes again. -/
@@ -140,6 +190,64 @@ theorem peer_resync (form sform : SumForm) (mode : OvMode) (f : Facts) (hx : f.e
   rcases hshape with h | ⟨m, off, hm, hlt, h⟩
   · subst h; simp [parseFrames, Message.fromSlice]
   · rw [h, truncated_frame_not_parsed form sform mode m hm off hlt]; simp
+
+/-! ### composition with C02: re-synchronisation as a corollary of the parser theorems -/
+
+/-- C02's soundness theorem, applied to a torn tail: the current source's `Message::from_slice`
+(extracted header sum form, any slice sum form, both build profiles) never accepts a proper prefix of a
+consistent frame.  (By `C02.parse_sound`: an accepted frame lies inside the buffer and carries the
+buffer's own header — which is the torn frame's header and declares more than is there.) -/
+theorem torn_tail_rejected_by_current_parser (mode : OvMode) (sf : SumForm) (m0 : Message) (wf : m0.WF)
+    (off : Nat) (hoff : off < m0.toVec.length) (m' : Message) :
+    Message.fromSlice Gen.headerSumForm sf mode (m0.toVec.take off) ≠ .ok m' := by
+  intro hp
+  obtain ⟨h48, hhdr, _, _, hle, _⟩ := C02.parse_sound mode sf _ m' hp
+  have hlen : (m0.toVec.take off).length = off := by simp [List.length_take]; omega
+  rw [hlen] at h48 hle
+  have htail : m0.toVec.take off = m0.header.encode ++ (m0.query ++ m0.body).take (off - 48) := by
+    simp only [Message.toVec, List.append_assoc]
+    rw [List.take_append, encode_length, List.take_of_length_le (by simp; omega)]
+  have hh : m'.header = m0.header := by
+    rw [hhdr, htail]; exact parse_encode_append m0.header wf.inRange _
+  have := toVec_length m0
+  rw [hh, wf.qlen, wf.blen] at hle
+  omega
+
+/-- **Re-synchronisation from C02's theorems, on the current source's forms.**  For each of the six
+endpoints with the facts extracted today, and every schedule: at every frame boundary of the stream the
+current `Message::from_slice` returns exactly the next completed frame (`C02.parse_complete`), and at the
+boundary after the last completed frame it accepts nothing (`C02.parse_sound` via
+`torn_tail_rejected_by_current_parser`) — the torn tail is never mistaken for a frame. -/
+theorem peer_resync_current (mode : OvMode) (sf : SumForm) (ep : Nat) (hep : ep < 7) :
+    ∃ o, Gen.Torn.obs ep = some o ∧
+    ∀ (evs : List (Ev Message)), (∀ e ∈ evs, e.Wf) →
+      let c := run mlen o.facts evs Conn.init
+      (∀ pre m post, c.done = pre ++ m :: post →
+        Message.fromSlice Gen.headerSumForm sf mode
+          (c.stream.drop ((pre.map Message.toVec).flatten.length)) = .ok m) ∧
+      (∀ m', Message.fromSlice Gen.headerSumForm sf mode
+          (c.stream.drop ((c.done.map Message.toVec).flatten.length)) ≠ .ok m') := by
+  obtain ⟨o, ho, hw⟩ := whole_frames_endpoints ep hep
+  refine ⟨o, ho, fun evs hwf => ?_⟩
+  obtain ⟨hd, tail, hs, hshape, _⟩ := hw evs hwf
+  intro c
+  have hs' : c.stream = (c.done.map Message.toVec).flatten ++ tail := hs
+  constructor
+  · intro pre m post hsplit
+    have hm : m.WF := hd m (by rw [show (run mlen o.facts evs Conn.init).done = c.done from rfl, hsplit]; simp)
+    rw [hs', hsplit]
+    simp only [List.map_append, List.map_cons, List.flatten_append, List.flatten_cons, List.append_assoc]
+    rw [List.drop_left']
+    · exact C02.parse_complete mode sf m hm _
+    · rfl
+  · intro m'
+    rw [hs', List.drop_left' rfl]
+    rcases hshape with h | ⟨m0, off, hm0, hlt, h⟩
+    · subst h
+      intro hp
+      have := (C02.parse_sound mode sf _ m' hp).1
+      simp at this
+    · rw [h]; exact torn_tail_rejected_by_current_parser mode sf m0 hm0 off hlt m'
 
 /-! ### each fact is necessary (model-level counterexamples, replayed on endpoints that lack a fact) -/
 
